@@ -102,6 +102,9 @@ func parseRow(row string) ([]tak.Square, error) {
 	var out []tak.Square
 	bits := strings.Split(row, ",")
 	for _, bit := range bits {
+		if len(bit) == 0 {
+			return nil, fmt.Errorf("empty square in row: %q", row)
+		}
 		if bit[0] == 'x' {
 			count := 1
 			if len(bit) > 1 {
